@@ -13,7 +13,11 @@ import Ggql.Model.SdlCF
 namespace Ggql.ExeCF
 open Ggql.Scan Ggql.SdlCF
 
-variable (cm : CM)
+structure Cfg where
+  /-- D05: `readVarDef` accepts a variable definition without a type (`$v: )`), leaving `VarDef.Type` nil -/
+  varTypeOptional : Bool := true
+
+variable (cm : CM) (cfg : Cfg)
 
 def fragGet (fs : List (List UInt8 × Bool)) (n : List UInt8) : Option Bool :=
   (fs.find? (fun e => e.1 == n)).map (·.2)
@@ -36,7 +40,9 @@ def readVarDef (p : P) : Option Err × P :=
           let p := reRead p
           match readType cm p.vfuel p with
           | ((_, some e), p) => (some e, p)
-          | ((_, none), p) =>
+          | ((t, none), p) =>
+            if t.isNone && !cfg.varTypeOptional then (some p.perr, p)     -- "variable type missing"
+            else
             match skipSp cm p with
             | (none, p) => (some ioErr, p)
             | (some b, p) =>
@@ -55,7 +61,7 @@ def varLoop : Nat → P → Option Err × P
       else if b == 41 then (none, reRead p)
       else if b != 36 then (some p.perr, p)
       else
-        match readVarDef cm (reRead p) with
+        match readVarDef cm cfg (reRead p) with
         | (some e, p) => (some e, p)
         | (none, p) => varLoop n p
 
@@ -63,7 +69,7 @@ def varLoop : Nat → P → Option Err × P
 def readVarDefs (p : P) : Option Err × P :=
   match skipSp cm p with
   | (none, p) => (some ioErr, p)
-  | (some b, p) => if b == 40 then varLoop cm p.vfuel (reRead p) else (none, p)
+  | (some b, p) => if b == 40 then varLoop cm cfg p.vfuel (reRead p) else (none, p)
 
 /-- `readFragRef` -/
 def readFragRef (tok : List UInt8) (p : P) : Option Err × P :=
@@ -178,7 +184,7 @@ def readOp (fuel : Nat) (p : P) : ((List UInt8 × Int × Int) × Option Err) × 
     match readToken cm p with
     | ((t, true), p) => (((t, line, col), some ioErr), p)
     | ((t, false), p) =>
-      match readVarDefs cm p with
+      match readVarDefs cm cfg p with
       | (some e, p) => (((t, line, col), some e), p)
       | (none, p) =>
         match readDirs cm p with
@@ -229,7 +235,7 @@ def mainLoop : Nat → P → List (List UInt8) → (List (List UInt8) × Option 
         | ((_, true), p) => ((ops, some ioErr), p)
         | ((tok, false), p) =>
           if isOpWord tok then
-            match readOp cm p.vfuel p with
+            match readOp cm cfg p.vfuel p with
             | (((name, line, col), e), p) =>
               if ops.contains name then ((ops, some (p.perrAt line col)), p)
               else
@@ -266,6 +272,6 @@ def parseExe (fuel : Nat) (bytes : List UInt8) (tail : Tail) : (List (List UInt8
   let p := P.init bytes tail
   match skipBOM p with
   | (some e, p) => (([], some e), p)
-  | (none, p) => mainLoop cm fuel p []
+  | (none, p) => mainLoop cm cfg fuel p []
 
 end Ggql.ExeCF
